@@ -50,3 +50,42 @@ func VerifLiveSleepers() int {
 	defer verifMu.Unlock()
 	return len(verifSleepers)
 }
+
+// Schedule points: one before every atomic operation of the algorithm (outside
+// commitSleep, which runs on the system stack where nothing may block).
+const (
+	verifAddLoad = iota
+	verifAddCAS
+	verifNextLoad
+	verifNextPrepare
+	verifNextRecheck
+	verifNextAbort
+	verifNextPark
+	verifNextSwap
+	verifFetchSwap
+	verifDoneLoad
+	verifDoneCAS
+	verifEnqLoad
+	verifEnqCAS
+	verifWakeLoad
+	verifWakeCAS
+	verifAssertLoad
+	verifAssertSwap
+	verifClearLoad
+	verifClearCAS
+)
+
+// VerifHook, when set, is called before each atomic operation with the identity
+// of the schedule point, so that a harness can force an interleaving.
+var VerifHook func(point int)
+
+// verifPoint always returns true (it is used inside conditions).
+func verifPoint(k int) bool {
+	if h := VerifHook; h != nil {
+		h(k)
+	}
+	return true
+}
+
+// VerifWaitingG returns the sleeper's waitingG word: 0, 1 (preparing) or a g.
+func VerifWaitingG(s *Sleeper) uintptr { return atomic.LoadUintptr(&s.waitingG) }
